@@ -383,3 +383,47 @@ var Default = &Walker{Opts: Opts{ThroughCall: AllCalls}}
 
 // Strict is a walker that treats calls as leaves.
 var Strict = &Walker{}
+
+// AccessPath renders the field access path a value is loaded from, e.g. the
+// load `d.Spec.ClaimNames.Plural` gives (d, "Spec.ClaimNames.Plural"). Index
+// steps are rendered as "[]". ok is false when v is not a pure path.
+func AccessPath(v ssa.Value) (rootv ssa.Value, path string, ok bool) {
+	var parts []string
+	for i := 0; i < 64; i++ {
+		switch x := v.(type) {
+		case *ssa.UnOp:
+			if x.Op != token.MUL {
+				return v, join(parts), len(parts) > 0
+			}
+			v = x.X
+		case *ssa.FieldAddr:
+			st := x.X.Type().Underlying().(*types.Pointer).Elem().Underlying().(*types.Struct)
+			parts = append(parts, st.Field(x.Field).Name())
+			v = x.X
+		case *ssa.Field:
+			st := x.X.Type().Underlying().(*types.Struct)
+			parts = append(parts, st.Field(x.Field).Name())
+			v = x.X
+		case *ssa.IndexAddr:
+			parts = append(parts, "[]")
+			v = x.X
+		case *ssa.Index:
+			parts = append(parts, "[]")
+			v = x.X
+		default:
+			return v, join(parts), len(parts) > 0
+		}
+	}
+	return v, join(parts), false
+}
+
+func join(rev []string) string {
+	s := ""
+	for i := len(rev) - 1; i >= 0; i-- {
+		if s != "" && rev[i] != "[]" {
+			s += "."
+		}
+		s += rev[i]
+	}
+	return s
+}
